@@ -285,3 +285,8 @@ def run(ctx):
     from rules import round3
     round3.share(ctx, "R10.4", "C09", lambda i_: i_["rule"] == "R9.2" and "copy-complete" in i_["inst"], "relocation:",
                  "a failing close of the copy deletes the only complete stream", 1)
+    ctx.rule("R10.5", "who may delete a file: in the runtime every remove / unlink / unlinkat / rename lies in "
+             "move_thread_to_final (or a private helper only it uses), where R10.2 / R10.4 tie the deletion to a completed "
+             "copy; temporary directories go through rmdir, which refuses a directory that still holds a kept stream")
+    from rules import round8
+    round8.check_only_relocation_deletes_files(ctx, "R10.5")
